@@ -793,7 +793,11 @@ class K:
     get = Base.get
     prop = Base.prop
     __len__ = Base.__len__
-OPS = [("new", (), {{}}), ("call", "get"), ("call", "get", 3), ("getattr", "prop"), ("len",)]
+    # (special methods which Base itself only has from object: in the bare class these are object's own)
+    __eq__ = Base.__eq__
+    __hash__ = Base.__hash__
+    __ne__ = Base.__ne__
+OPS = [("new", (), {{}}), ("call", "get"), ("call", "get", 3), ("getattr", "prop"), ("len",), ("eqself",), ("hash",), ("eqto", 3)]
 ''',
     "constructor-keywords-named-like-parameters-of-the-wrappers": '''
 {deco}
@@ -820,6 +824,20 @@ class K:
     def get(self):
         return self.x
 OPS = [("new", (5,), {{}}), ("call", "get"), ("new", (), {{}}), ("getattr", "x")]
+''',
+    "constructor-inherited-from-a-subclass-of-a-class-without-constructor": '''
+{deco}
+class Base{base}:
+    def get(self):
+        return 1
+class Named(Base):
+    def __init__(self, name, retries=1):
+        self.name, self.retries = name, retries
+class K(Named):
+    """Only inherits the constructor which Named added."""
+    def label(self):
+        return "{{}}:{{}}".format(self.name, self.retries)
+OPS = [("new", ("b",), {{}}), ("call", "label"), ("new", (), {{"name": "c", "retries": 5}}), ("call", "label"), ("call", "get")]
 ''',
     "singleton-new": '''
 {deco}
@@ -1096,6 +1114,11 @@ def run_classes(w) -> None:
                     # only members the user wrote are compared: the library adds Python wrappers around slot wrappers
                     # inherited from object (silent zone) and re-installs __new__ as a plain function
                     md_got = {k: v for k, v in md_got.items() if k in md_want}
+                    # (a member which IS a default of object in the bare class - `__eq__ = Base.__eq__` where Base has none of its own -
+                    # is the library's wrapped copy of that default in the twin: the silent zone of the wrapped slot wrappers)
+                    for k in [k for k, v in md_want.items() if v in (("wrapper_descriptor",), ("method_descriptor",), ("builtin_function_or_method",))]:
+                        md_want.pop(k)
+                        md_got.pop(k, None)
                     for k in list(md_want):
                         if k.endswith(".__new__") and k in md_got:
                             md_want[k] = md_want[k][1:4]
